@@ -15,7 +15,7 @@ def run(chk, replay=None):
         "T10Data.tla is a transcription of the parameter-data tables of SPC-4/SBC-3/SMC-3/MMC-6 from memory; buffers "
         "are produced by untrusted Python generators and TLC re-derives every expected value from the bytes; buffers "
         "whose embedded lengths are not honest are skipped (counted as unjudged)",
-        "not judged: REPORT PRIORITY descriptors beyond the header; READ CD is judged for the selections F8h / 10h / 20h on CD-DA, Mode 1, Mode 2 "
+        "REPORT PRIORITY: the TransportID of a descriptor is judged as the bytes it occupies (the library returns them undecoded); READ CD is judged for the selections F8h / 10h / 20h on CD-DA, Mode 1, Mode 2 "
         "formless and Mode 2 form 1 sectors and for the contiguous runs of SYNC / header / sub-header / user data / EDC-ECC "
         "of Mode 1 (7), Mode 2 formless (4) and Mode 2 form 1 (9), with every C2 / sub-channel selection (Mode 2 form 2 is "
         "not judged: sizes not reconstructed with certainty)",
